@@ -452,6 +452,37 @@ func runC13(e *sim.Env) {
 				e.Probe("dag_parents_rejected")
 				continue
 			}
+			if tip.Parent != nil && e.Chance(1, 2) {
+				// a copy of a transaction that is in the pool now, with a damaged
+				// proof (its id does not cover proofs): still an invalid proof
+				bad := parents[0].DeepCopy()
+				what := ""
+				for j := range bad.SiacoinInputs {
+					p := &bad.SiacoinInputs[j].Parent.StateElement
+					if p.LeafIndex == types.UnassignedLeafIndex || what != "" {
+						continue
+					}
+					if len(p.MerkleProof) > 0 && e.Chance(1, 2) {
+						p.MerkleProof[e.Intn(len(p.MerkleProof))][e.Intn(32)] ^= 1
+						what = "proof-bit"
+					} else {
+						p.LeafIndex += uint64(e.Range(1, 1000))
+						what = "leaf-index"
+					}
+				}
+				if what != "" {
+					var uerr, terr error
+					e.Guard("C13.panic", "UpdateV2TransactionSet(pooled, "+what+")", func() {
+						_, uerr = s.cm.UpdateV2TransactionSet([]types.V2Transaction{bad.DeepCopy()}, tip.Index(), tip.Parent.Index())
+						_, _, terr = s.cm.V2TransactionSet(tip.Parent.Index(), bad.DeepCopy())
+					})
+					e.Fault("corrupt-pooled-" + what)
+					if uerr == nil {
+						e.Violationf("C13.invalid-rejected", "no-error:pooled-"+what, "UpdateV2TransactionSet accepted a copy of a pooled transaction with a damaged %s (basis %v -> %v)", what, tip.Index(), tip.Parent.Index())
+					}
+					_ = terr
+				}
+			}
 			last := set[len(set)-1].DeepCopy()
 			basis := tip.Index()
 			stale := false
